@@ -1931,6 +1931,10 @@ class Tensor:
         self.data.shape = newshape
         self.data.shape = old_shape
 
+        # As with any other in-place operation, the tensor's gradient
+        # (and stale view-info) must be cleared before it is mutated
+        self.null_grad(_clear_view_info=True)
+
         # create placeholders for self and all of its view-children
         graph = _dup.DuplicatingGraph(self)
         # need to iterate over all nodes now before we tinker
